@@ -106,4 +106,41 @@ def buildAnnounce (ft : List (FlagF × FlagSrc)) (bt : List (BodyF × BodySrc))
   (buildBody bt s).map fun ab =>
     { header := { base with flags := buildFlags ft s.tp base.flags }, body := .announce ab, suffix := [] }
 
+/-! ### the receiving side: `AnnounceMessage::time_properties` -/
+
+def FlagF.get (f : FlagF) (x : Flags) : Bool :=
+  match f with
+  | .alternateMaster => x.alternateMaster | .twoStep => x.twoStep | .unicast => x.unicast
+  | .profile1 => x.profile1 | .profile2 => x.profile2 | .leap61 => x.leap61 | .leap59 => x.leap59
+  | .utcValid => x.utcValid | .ptpTimescale => x.ptpTimescale | .timeTraceable => x.timeTraceable
+  | .freqTraceable => x.freqTraceable | .syncUncertain => x.syncUncertain
+
+/-- what `time_properties()` reads: the `if`-chain of the leap indicator, the flag guarding the UTC offset,
+the flags of the three booleans; `utcFromBody` / `timeSourceFromBody`: the values come from
+`self.current_utc_offset` / `self.time_source` -/
+structure TpTable where
+  leapChain : List (FlagF × Leap)
+  leapElse : Leap
+  utcGuard : FlagF
+  utcFromBody : Bool
+  timeTraceable : FlagF
+  freqTraceable : FlagF
+  ptpTimescale : FlagF
+  timeSourceFromBody : Bool
+  deriving Repr, Inhabited
+
+def evalLeap (x : Flags) : List (FlagF × Leap) → Leap → Leap
+  | [], e => e
+  | (f, l) :: rest, e => if f.get x then l else evalLeap x rest e
+
+def buildTp (t : TpTable) (a : Ann) : Option TimeProps :=
+  if t.utcFromBody && t.timeSourceFromBody then
+    some { utcOffset := if t.utcGuard.get a.hdr.flags then some a.body.utcOffset else none
+           leap := evalLeap a.hdr.flags t.leapChain t.leapElse
+           timeTraceable := t.timeTraceable.get a.hdr.flags
+           freqTraceable := t.freqTraceable.get a.hdr.flags
+           ptpTimescale := t.ptpTimescale.get a.hdr.flags
+           timeSource := a.body.timeSource }
+  else none
+
 end Statime.AnnGen
